@@ -64,7 +64,19 @@ def check_walks(ctx, w):
     ctx.ob('I-REL', f.construct, 'auxiliaries start at entry_offset + <prefix>_aux, count <prefix>_cnt', ok, got=got,
            msg='auxiliary chain must start at the entry position plus its aux displacement')
     # the advance is the last statement of the loop body, after the yield
-    ok = len(loops) == 1 and isinstance(loops[0].body[-1], ast.AugAssign) and U(loops[0].body[-1].target) == 'entry_offset'
+    # (over the paths of one iteration: the ones that stay in the loop end with the advance; the walk may leave only at a zero `next`)
+    ok = len(loops) == 1
+    for p in (paths.enum_paths(loops[0].body) if ok else []):
+        stm = [ev[1] for ev in p.events if ev[0] == 'stmt']
+        if p.end[0] == 'fall':
+            ok = ok and bool(stm) and isinstance(stm[-1], ast.AugAssign) and U(stm[-1].target) == 'entry_offset' and \
+                any(isinstance(y, ast.Yield) for st in stm[:-1] for y in ast.walk(st))
+        elif p.end[0] == 'break':
+            facts = expr.Facts(expr.CP(expr.cond_str(t, env), pol) for t, pol in p.conds(asserts=False))
+            zero = [k for k, v in facts.items() if v is True and k.startswith('[index(') and k.endswith(',%s) == 0]' % nf('next'))]
+            ok = ok and len(zero) == 1 and any(isinstance(y, ast.Yield) for st in stm for y in ast.walk(st))
+        elif p.end[0] != 'raise':
+            ok = False
     ctx.ob('I-REL', f.construct, 'advance is the unconditional last step', ok)
     g = w.model.func(GV, 'GNUVersionSection.num_versions')
     got = [expr.nfs(r.value, expr.FEnv(g.node)) for r in expr.returns_of(g.node)]
